@@ -378,3 +378,9 @@ func LangByName(name string) (Lang, bool) {
 	}
 	return 0, false
 }
+
+// ChecksumOfRaw returns the first bits bits of SHA-256(b) for any b.
+func ChecksumOfRaw(b []byte, bits int) int {
+	h := sha256.Sum256(b)
+	return int(h[0]) >> uint(8-bits)
+}
